@@ -3,7 +3,7 @@
 import glob, json, os, re, sys
 VERIF = os.path.dirname(os.path.dirname(os.path.abspath(__file__)))
 rows = []
-for d in sorted(glob.glob(os.path.join(VERIF, "seeded", "C*-m*"))):
+for d in sorted(glob.glob(os.path.join(VERIF, "seeded", "C*-*m*"))):
     name = os.path.basename(d); pid, m = name.split("-")
     agent = {}
     if os.path.exists(os.path.join(d, "meta.agent.json")):
